@@ -65,8 +65,10 @@ class Traph(object):
         self.lru_trie_path = None
         self.link_store_path = None
 
-        create = overwrite
         self.in_memory = not bool(folder)
+
+        # An in-memory traph always starts empty: it is created, never reopened
+        create = overwrite or self.in_memory
 
         # Solving paths
         if not self.in_memory:
